@@ -159,6 +159,12 @@ Theorem tamper_any_bit_interest_rejected : forall (chk : bytes -> bytes -> bool)
 Proof. exact tamper_any_bit_interest_rejected_thm. Qed.
 Print Assumptions tamper_any_bit_interest_rejected.
 
+(* NOT proved, named tamper_outer_header_bit_partial — full statement: the same conclusion for a flipped bit in the OUTER type
+   or length octets of the packet (positions 0 .. value_offset W - 1: `06 L` / `05 L`, the length ShrinkLength rewrites).
+   These octets are not part of the signed portion; a flip there re-frames the whole packet (a shorter outer length hands
+   the rest of the bytes to the top-level loop, whose Data/Interest contexts persist across elements).  Covered by the
+   harness's exhaustive single-bit sweep of every generated signed packet against the real validators — a test. *)
+
 (* Tampering, well-formed modifications (Data).  Every modification that leaves a well-formed Data with different name /
    MetaInfo / content / SignatureInfo / signature value is decoded to a (covered bytes, signature value) pair different from
    the signed one. *)
